@@ -147,7 +147,37 @@ def Match.cidrs : Match → List Cidr
   | .src c => [c]
   | _ => []
 
+/-- Hook labelling of the chains the compiler uses: the hooks a chain can be entered from. `hookValid`
+    checks locally that the labelling is consistent with every jump (caller's hooks are among the callee's)
+    and that every match / target is one the kernel accepts at all hooks of its chain: owner and `-o`
+    matches only at OUTPUT, `-i` only at PREROUTING, TPROXY only in mangle at PREROUTING, REDIRECT only in nat. -/
+def hooksOf : Table → Chain → List Hook
+  | _, .PREROUTING => [.prerouting]
+  | _, .OUTPUT => [.output]
+  | _, .ISTIO_OUTPUT => [.output]
+  | _, .ISTIO_OUTPUT_DNS => [.output]
+  | _, .ISTIO_INBOUND => [.prerouting]
+  | _, .ISTIO_DIVERT => [.prerouting]
+  | _, .ISTIO_TPROXY => [.prerouting]
+  | _, .ISTIO_DROP => [.prerouting]
+  | _, .ISTIO_REDIRECT => [.prerouting, .output]
+  | _, .ISTIO_IN_REDIRECT => [.prerouting, .output]
+
+def Match.hookOK (hs : List Hook) : Match → Bool
+  | .uidOwner _ _ | .gidOwner _ _ | .outIf _ => hs.all (· == .output)
+  | .inIf _ => hs.all (· == .prerouting)
+  | _ => true
+
+def Rule.hookValid (r : Rule) : Bool :=
+  r.conds.all (Match.hookOK (hooksOf r.table r.chain)) &&
+  (match r.target with
+   | .jump ch => (hooksOf r.table r.chain).all (hooksOf r.table ch).contains
+   | .tproxy _ _ => r.table == .mangle && (hooksOf r.table r.chain).all (· == .prerouting)
+   | .redirect _ _ => r.table == .nat
+   | _ => true)
+
 def wellFormed (f : Fam) (rules : List Rule) : Bool :=
+  rules.all Rule.hookValid &&
   -- every -I position exists when the command is executed
   (Table.all.all fun t => Chain.all.all fun ch =>
     insertsInRange 0 (rules.filter (fun r => r.table == t && r.chain == ch))) &&
